@@ -1,7 +1,7 @@
 """Per-property exploration: which harness runs, what is compared, which oracle clauses count."""
 import os, sys, json, random, glob, collections, multiprocessing, time
 VERIF = os.path.dirname(os.path.dirname(os.path.abspath(__file__)))
-from harness import common, l1, store_oracle, tbuffer, tfleet, belt, convfactory, storeq, factory, factory_oracle
+from harness import common, l1, store_oracle, storep, tbuffer, tfleet, belt, convfactory, storeq, factory, factory_oracle
 
 # fields of a row whose disagreement (model vs implementation) concerns each store-level property
 L1_FIELDS = {
@@ -117,6 +117,23 @@ def _edge_worker(args):
     return out
 
 
+def _filter_real_worker(args):
+    """C04 on the filter store under decimal times (implementation only, see storep.run_real)"""
+    n, seed = args
+    rng = random.Random(seed)
+    out = dict(evals=0, tags=collections.Counter(), sigs=set(), dis=[], viol=[], samples=[], ops=collections.Counter(), errs=collections.Counter())
+    for _ in range(n):
+        case, msg = storep.run_real(rng, rng.randrange(10, 60))
+        out["evals"] += 1
+        out["tags"].update(["filter/decimal-times"])
+        out["sigs"].add(("real", case["cap"], case["tdelay"], tuple(o[0] for o in case["ops"])))
+        if msg:
+            out["viol"].append(dict(**{"class": "storep-real"}, message="[filter/decimal-times] " + msg, case=case))
+    out["sigs"] = len(out["sigs"])
+    out["viol"] = sorted(out["viol"], key=lambda v: len(v["case"]["ops"]))[:3]
+    return out
+
+
 def load_corpus(model, kind):
     out = []
     anykind = kind is None
@@ -147,7 +164,9 @@ def run_l1(pid, tier, seed):
     with multiprocessing.Pool(min(16, len(jobs) + len(ejobs))) as pool:
         a1 = pool.map_async(_l1_worker, jobs)
         a2 = pool.map_async(_edge_worker, ejobs)
-        outs = a1.get() + a2.get()
+        rjobs = [(150 if tier == "quick" else 4000, seed * 577 + k) for k in range(2 if tier == "quick" else 8)] if pid == "C04" else []
+        a3 = pool.map_async(_filter_real_worker, rjobs)
+        outs = a1.get() + a2.get() + a3.get()
     res = dict(evaluations=0, distinct_nontrivial=0, samples=[], traces=0, disagreements=[], violations=[], known=[],
                distribution={})
     tags, ops, errs = collections.Counter(), collections.Counter(), collections.Counter()
@@ -414,7 +433,7 @@ def _belt_on_grid(c):
     if c["kind"] != "cont" or len(c["producers"]) != 1 or isinstance(c["producers"][0], dict) or c.get("real") or c.get("odd_length"):
         return False
     u = c["item_length"] / c["speed"]
-    vals = list(c["producers"][0]) + list(c["services"]) + [c["first_get"]]
+    vals = list(c["producers"][0]) + list(c["services"]) + [c["first_get"]] + list(c.get("hold", []))
     return all(abs(v / u - round(v / u)) < 1e-9 for v in vals)
 
 
@@ -469,8 +488,11 @@ def _belt_worker(args):
                     continue
                 if clause == "stall-crash" and not _belt_on_grid(c):
                     continue        # off the slot grid / two producers: the failure is the listed C12 finding (accumulating-order)
+                ongrid = clause in ("acc-overlap", "acc-exit-shared", "order", "crash", "stall-crash") and c["acc"] and _belt_on_grid(c)
+                # on the slot grid with one producer: not the listed early-release finding; when the destination claims the head and
+                # takes it later (hold) the tag says so
                 tagc = "[%s/%s%s%s]" % (_belt_tag(c), "odd-length/" if c.get("odd_length") else "",
-                                        "grid/" if clause in ("acc-overlap", "acc-exit-shared", "order", "crash", "stall-crash") and c["acc"] and _belt_on_grid(c) else "", clause)
+                                        ("held-grid/" if c.get("hold") else "grid/") if ongrid else "", clause)
                 if tagc not in seen:
                     seen.add(tagc)
                     out["viol"].append(dict(**{"class": "belt"}, message=tagc + " " + msg, case=c))
@@ -550,6 +572,8 @@ def _f_worker(args):
         # factories with conveyor edges: the model has no conveyors, so these are run on the implementation only and
         # judged by the oracle's clauses (conservation, timing, counters, accounting, crash freedom ...)
         cfgs += [factory.gen_config_conv(rng) for _ in range(max(2, n // 8))]
+    if pid in ("C10", "C15"):
+        cfgs += [factory.gen_config_lazy(rng) for _ in range(max(2, n // 8))]
     if pid == "C14":
         cfgs = [c for c in cfgs if any(e["kind"] == "fleet" for e in c["edges"])]
     if pid in ("C20", "C15"):
@@ -780,6 +804,10 @@ def replay(pid, path):
         v = [x for x in factory_oracle.check(case, r["impl"]) if x[0] == pid]
         print("oracle:", v, "first disagreement:", r["dis"])
         return 1 if v or r["dis"] else 0
+    if model == "storep-real":
+        msg = storep.replay_real(case)
+        print("oracle:", msg)
+        return 1 if msg else 0
     if model == "storeq":
         r = storeq.run_batch([case])[0]
         print(json.dumps({k: r[k] for k in r if k != "case"}, default=str)[:4000])
